@@ -70,6 +70,8 @@ func routePath(a actorT) (pattern, prefix string) {
 		return p, "/g"
 	case isMount(a.RK):
 		return p, "/m" + strconv.Itoa(a.R)
+	case a.RK >= 300:
+		return "/r" + strconv.Itoa(a.RK-300) + "/:id/:name", ""
 	case a.RK >= 200:
 		return "/r" + strconv.Itoa(a.RK-200) + "/:id", ""
 	}
@@ -370,6 +372,10 @@ func (w *world) reqPath(id int, valInt bool) string {
 		v = "12"
 	}
 	a := w.kindOf[id]
+	if a.RK >= 300 { // a two-parameter route below route p: overlaps the static-tail routes below p in the compiled matcher
+		_, prefix := routePath(w.kindOf[a.RK-300])
+		return prefix + "/r" + strconv.Itoa(a.RK-300) + "/" + v + "/zz"
+	}
 	if a.RK >= 200 { // the twin of version route p in v2: the same path, asked for with the version header
 		return "/r" + strconv.Itoa(a.RK-200) + "/" + v
 	}
@@ -394,7 +400,7 @@ func (w *world) get(id int, valInt bool, final bool) string {
 	}
 	rec := httptest.NewRecorder()
 	req := httptest.NewRequest(http.MethodGet, w.reqPath(id, valInt), nil)
-	if a.RK >= 200 {
+	if a.RK >= 200 && a.RK < 300 {
 		req.Header.Set("X-API-Version", "v2")
 	}
 	w.r.ServeHTTP(rec, req)
@@ -416,6 +422,12 @@ func (w *world) get(id int, valInt bool, final bool) string {
 				return "1 " + strconv.Itoa(700000+id) // part of the mount is routable and part is not
 			}
 		}
+		if want && (a.RK == 2 || a.RK == 5) {
+			// the named route of the sub-router reverses, through the parent, to the MOUNTED path
+			if u, err := w.r.URLFor("M"+strconv.Itoa(id)+".Sub.r"+strconv.Itoa(id), map[string]string{"id": "12"}, nil); err != nil || u != w.reqPath(id, true) {
+				return "1 " + strconv.Itoa(500000+id)
+			}
+		}
 		r3 := httptest.NewRecorder()
 		w.subs[id].ServeHTTP(r3, httptest.NewRequest(http.MethodGet, "/docs/", nil))
 		if r3.Code != http.StatusOK {
@@ -423,7 +435,11 @@ func (w *world) get(id int, valInt bool, final bool) string {
 		}
 	}
 	if rec.Code == http.StatusOK {
-		if a.RK >= 200 && rec.Header().Get("X-Route") == strconv.Itoa(a.RK-200) {
+		if who, err := strconv.Atoi(rec.Header().Get("X-Route")); err == nil && who != id && w.kindOf[who].RK >= 300 {
+			// the two-parameter route next to the asked one answered (it matches every /r<p>/<v>/<x>): the asked route did not
+			return "0"
+		}
+		if a.RK >= 200 && a.RK < 300 && rec.Header().Get("X-Route") == strconv.Itoa(a.RK-200) {
 			// a version without a tree for the method is served from the default version's tree (C13's subject):
 			// the twin itself did not answer
 			return "0"
@@ -484,6 +500,13 @@ func (w *world) do(a actorT) (out string) {
 				rk = 0
 			}
 		}
+		if rk >= 300 {
+			pattern = "/r" + strconv.Itoa(rk-300) + "/:id/:name"
+			rk = w.kindOf[rk-300].RK
+			if isMount(rk) || rk >= 100 {
+				rk = 0
+			}
+		}
 		if rk >= 200 {
 			rk = 7
 		}
@@ -512,12 +535,12 @@ func (w *world) do(a actorT) (out string) {
 			case 2, 4, 5, 6:
 				// the sub-router was built unscheduled (its own registration yields too)
 				if a.R%4 != 3 {
-					w.r.Mount(prefix, w.subs[a.R], route.WithNotFound(router.HandlerFunc(func(c *router.Context) {
+					w.r.Mount(prefix, w.subs[a.R], router.NamePrefix("M"+strconv.Itoa(a.R)+"."), route.WithNotFound(router.HandlerFunc(func(c *router.Context) {
 						c.Response.Header().Set("X-Scoped-NF", strconv.Itoa(a.R))
 						c.Response.WriteHeader(http.StatusNotFound)
 					})))
 				} else {
-					w.r.Mount(prefix, w.subs[a.R])
+					w.r.Mount(prefix, w.subs[a.R], router.NamePrefix("M"+strconv.Itoa(a.R)+"."))
 				}
 				if a.R%2 == 0 { // the same sub-router under a second prefix (both mounts belong to this one registration)
 					w.r.Mount("/twin"+prefix, w.subs[a.R])
@@ -619,12 +642,15 @@ func runPhases(id string, k caseT, st *hx.Stats) string {
 				sub.GET("/r"+strconv.Itoa(a.R)+"/12", w.handler(a.R))
 				sub.GET("/r"+strconv.Itoa(a.R)+"/abc", w.handler(a.R))
 			} else {
-				sub.GET(pattern, w.handler(a.R))
+				sub.GET(pattern, w.handler(a.R)).SetName("Sub.r" + strconv.Itoa(a.R)) // reversed through the parent after the mount
 			}
 			sub.GET("/docs/", w.handler(a.R)) // a static route that ends in a slash: mounted as <prefix>/docs/
 			if a.RK >= 5 {                    // a sub-router that served (or was warmed up) on its own before it is mounted
 				sub.Warmup()
 				sub.GET("/late", w.handler(a.R)) // … and was extended afterwards (goes straight into its trees)
+				if a.R%3 == 0 {
+					sub.Freeze() // … or even frozen (it served on its own): its reverse patterns exist already
+				}
 			}
 			w.subs[a.R] = sub
 		}
@@ -763,7 +789,9 @@ func runPhases(id string, k caseT, st *hx.Stats) string {
 				st.Count("request_with_context_already_done")
 			}
 			if a.K == "R" {
-				if a.RK >= 200 {
+				if a.RK >= 300 {
+					st.Count("register_two_parameter_route_below_another")
+				} else if a.RK >= 200 {
 					st.Count("register_same_path_in_second_version")
 				} else if a.RK >= 100 {
 					st.Count("register_below_another_route")
@@ -858,6 +886,13 @@ func fixedPhases() []caseT {
 		{Actors: []actorT{reg(1, 3), reg(2, 201), rq(1, true), rq(2, true), rq(1, false)}, Plan: []int{0, 0, 1, 1, 2, 3, 4}, Comp: true},
 		{Actors: []actorT{reg(1, 3), reg(2, 201), reg(3, 0), {K: "H", R: 2}, rq(2, false), rq(1, false), rq(3, true)}, Plan: []int{0, 0, 1, 1, 2, 2, 3, 4, 5, 6}, Comp: true},
 		{Actors: []actorT{reg(2, 201), reg(1, 3), {K: "W"}, {K: "H", R: 1}, rq(2, false), rq(1, false)}, Plan: []int{0, 0, 1, 1, 2, 2, 2, 2, 3, 4, 5}},
+		// seeded C12-33 class: overlapping dynamic routes in the compiled matcher (static tail vs second parameter), explicit
+		// Warmup, then a constraint on the shallower retained route re-registers it
+		{Actors: []actorT{reg(1, 0), reg(5, 101), reg(6, 301), reg(7, 101), {K: "W"}, {K: "H", R: 1}, rq(5, true), rq(6, true), rq(7, true), rq(1, false)}, Plan: []int{0, 0, 1, 1, 2, 2, 3, 3, 4, 4, 4, 4, 5, 6, 7, 8, 9}, Comp: true},
+		{Actors: []actorT{reg(6, 301), reg(1, 0), reg(5, 101), {K: "W"}, {K: "H", R: 1}, {K: "B", R: 1}, rq(5, true), rq(6, false)}, Plan: []int{0, 0, 1, 1, 2, 2, 3, 3, 3, 3, 4, 5, 6, 7}, Comp: true},
+		// … the constraint goes on the MOST specific route (re-registered: removed from and re-added to the compiled list)
+		{Actors: []actorT{reg(1, 0), reg(5, 101), reg(7, 101), reg(6, 301), {K: "W"}, {K: "H", R: 5}, rq(5, true), rq(7, true), rq(6, true), rq(1, true)}, Plan: []int{0, 0, 1, 1, 2, 2, 3, 3, 4, 4, 4, 4, 5, 6, 7, 8, 9}, Comp: true},
+		{Actors: []actorT{reg(1, 0), reg(7, 101), reg(6, 301), reg(5, 101), {K: "W"}, {K: "H", R: 7}, {K: "H", R: 5}, rq(5, true), rq(7, true), rq(6, true)}, Plan: []int{0, 0, 1, 1, 2, 2, 3, 3, 4, 4, 4, 4, 5, 6, 7, 8, 9}, Comp: true},
 		// seeded C12-14 class: the FIRST request arrives with a context that is already done; it is a request all the same:
 		// afterwards registration (router, version router, mount), Where*, SetName are rejected and URLFor works
 		{Actors: []actorT{reg(1, 0), {K: "N", R: 1}, rqGone(1), reg(2, 0), reg(3, 3), reg(4, 2), {K: "H", R: 1}, {K: "U", R: 1}, rq(2, true), rq(1, false)}, Plan: []int{0, 0, 1, 2, 2, 2, 2, 2, 2, 2, 2, 2, 3, 3, 4, 4, 5, 5, 6, 7, 8, 9}},
@@ -997,6 +1032,12 @@ func familyRandom(r *hx.Rand, n int, emit func(caseT)) {
 		if r.Chance(1, 3) { // a route below route 1
 			if !mountIDs[1] {
 				acts = append(acts, reg(7, 101), rq(7, r.Chance(1, 2)))
+				if r.Chance(1, 2) { // … and a two-parameter route next to it
+					acts = append(acts, reg(6, 301), rq(6, true))
+				}
+				if r.Chance(1, 3) { // a constraint on the deeper route
+					acts = append(acts, actorT{K: "H", R: 7})
+				}
 			}
 		}
 		na := r.Range(2, 5)
